@@ -3,6 +3,9 @@
 package clos
 
 import (
+	"sort"
+	"strings"
+
 	"github.com/ohler55/slip"
 	"github.com/ohler55/slip/pkg/generic"
 )
@@ -84,28 +87,49 @@ func (defaultSharedInitializeCaller) Call(s *slip.Scope, args slip.List, depth i
 		return nil
 	}
 	nameMap := map[string]string{}
-	argMap := map[string]slip.Object{}
-	fillMapFromKeyArgs(s, args, argMap, depth)
-	for k, v := range argMap {
-		sd := obj.Type.initArgDef(k)
-		if sd == nil {
+	fillMapFromKeyArgs(s, args, map[string]slip.Object{}, depth) // checks the list
+	// An initarg fills every slot that names it.
+	for i := 0; i < len(args)-1; i += 2 {
+		k := strings.ToLower(string(args[i].(slip.Symbol)))
+		sds := obj.Type.initArgDefs(k)
+		if len(sds) == 0 {
 			slip.ErrorPanic(s, depth, "%s is not a valid initarg for %s.", k, obj.Type.Name())
 		}
-		if n, has := nameMap[sd.name]; has {
-			slip.ErrorPanic(s, depth, "Duplicate initarg (%s) for slot %s. %s already specified.", sd.name, k, n)
-		}
-		obj.setSlot(s, sd, v, depth)
-		nameMap[sd.name] = k
-	}
-	for k, v := range obj.Type.defaultsMap() {
-		sd := obj.Type.initArgDef(k)
-		if _, has := nameMap[sd.name]; !has {
-			if v == nil {
-				obj.setSlot(s, sd, nil, depth)
-			} else {
-				obj.setSlot(s, sd, v.Eval(s, depth+1), depth)
+		for _, sd := range sds {
+			if n, has := nameMap[sd.name]; has {
+				if n != k {
+					slip.ErrorPanic(s, depth, "Duplicate initarg (%s) for slot %s. %s already specified.", sd.name, k, n)
+				}
+				continue // the leftmost of a repeated initarg is used
 			}
+			obj.setSlot(s, sd, args[i+1], depth)
 			nameMap[sd.name] = k
+		}
+	}
+	defaults := obj.Type.defaultsMap()
+	keys := make([]string, 0, len(defaults))
+	for k := range defaults {
+		keys = append(keys, k)
+	}
+	sort.Strings(keys)
+	for _, k := range keys {
+		var (
+			v    slip.Object
+			done bool
+		)
+		sds := obj.Type.initArgDefs(k)
+		if len(sds) == 0 {
+			slip.ErrorPanic(s, depth, "%s is not a valid initarg for %s.", k, obj.Type.Name())
+		}
+		for _, sd := range sds {
+			if _, has := nameMap[sd.name]; !has {
+				if !done && defaults[k] != nil {
+					v = defaults[k].Eval(s, depth+1)
+				}
+				done = true
+				obj.setSlot(s, sd, v, depth)
+				nameMap[sd.name] = k
+			}
 		}
 	}
 	for k, sd := range obj.Type.initFormMap() {
